@@ -98,6 +98,40 @@ def do_scalars(rec, hub, U, la, rng):
             f()
         except Exception:
             pass
+    # whole numbers judged exactly at the driver (Python integers): (a) 64-bit integers whose products and sums lie beyond 2**53,
+    # where a detour through floating point loses units; (b) narrow dtypes (int8 ... int32, bool) whose sums leave the dtype's range
+    lb_ = tuple(la[::-1]) if rng.random() < 0.5 else tuple(la)
+    for kind in ("wide", "narrow"):
+        if kind == "wide":
+            va = rng.integers(2**31 - 50, 2**31 + 50, size=sx).astype(np.int64)
+            vb = rng.integers(2**30, 2**31 + 50, size=gen.shape_of(U, lb_)).astype(np.int64)
+        else:
+            dt_ = [np.int8, np.uint8, np.int16, np.int32, np.bool_][int(rng.integers(0, 5))]
+            top_ = {np.int8: 127, np.uint8: 255, np.int16: 32767, np.int32: 2**31 - 1, np.bool_: 1}[dt_]
+            va = rng.integers(max(1, (2 * top_) // 3), top_ + 1, size=sx).astype(dt_)
+            vb = rng.integers(max(1, (2 * top_) // 3), top_ + 1, size=gen.shape_of(U, lb_)).astype(dt_)
+        A_ = np.vectorize(int, otypes=[object])(va) if va.size else va.astype(object)
+        B_ = np.vectorize(int, otypes=[object])(vb) if vb.size else vb.astype(object)
+        Bt = np.transpose(B_, [lb_.index(l) for l in la]) if len(la) > 1 else B_  # the second operand in the first one's order
+        ops_ = [("add", lambda p, q: p + q, A_ + Bt), ("sub", lambda p, q: p - q, A_ - Bt), ("maximum", lambda p, q: p.maximum(q), np.maximum(A_, Bt))]
+        if va.dtype.kind in "ub":
+            ops_ = [o_ for o_ in ops_ if o_[0] != "sub"]  # a negative difference has no unsigned representation at all
+        if kind == "wide":
+            ops_.append(("mul", lambda p, q: p * q, A_ * Bt))
+        for opn, f, exp in ops_:
+            xa = fd.FlodymArray(dims=gen.dimset(fd, U, la), values=va.copy())
+            xb = fd.FlodymArray(dims=gen.dimset(fd, U, lb_), values=vb.copy())
+            rec.event("scalar-results", sig=f"{kind}-int|{opn}|{va.dtype}|{la}|{lb_}", cls=f"whole-numbers|{kind}|{opn}|{va.dtype}")
+            try:
+                r = f(xa, xb)
+            except Exception as e:
+                rec.violation("scalar-results", f"whole-number-operation-raised:{kind}", {"op": opn, "dtype": str(va.dtype), "exc": repr(e)[:200]})
+                continue
+            got = np.asarray(r.values)
+            if tuple(r.dims.letters) != tuple(la) or got.shape != tuple(sx):
+                rec.violation("scalar-results", f"whole-number-operation:result-dimensions:{kind}", {"op": opn, "got": list(r.dims.letters)})
+            elif not all(float(g) == float(e_) and (got.dtype.kind not in "iu" or int(g) == int(e_)) for g, e_ in zip(got.reshape(-1).tolist(), np.asarray(exp, dtype=object).reshape(-1).tolist())):
+                rec.violation("scalar-results", f"whole-number-operation:wrong-entries:{kind}:{opn}", {"dtype": str(va.dtype), "result_dtype": str(got.dtype), "observed": [float(q) for q in got.reshape(-1)[:3]], "expected": [int(q) for q in np.asarray(exp, dtype=object).reshape(-1)[:3]], "same_order": lb_ == tuple(la)})
     # subclasses (Parameter, StockArray, Flow) follow the same rules
     vq = gen.values_one("dyadic", rng, sx)
     par = fd.Parameter(dims=gen.dimset(fd, U, la), values=vq.copy(), name="par")
